@@ -108,4 +108,4 @@ Definition t_levelOutputWidth : Z :=
   3.
 Definition t_unitMap : list (bytes * Z) :=
   [([x6e;x73], 1); ([x75;x73], 1000); ([xc2;xb5;x73], 1000); ([xce;xbc;x73], 1000); ([x6d;x73], 1000000); ([x73], 1000000000); ([x6d], 60000000000); ([x68], 3600000000000); ([x64], 86400000000000)].
-Definition t_shortDurBufSize : Z := 32.
+Definition t_shortDurBufSize : Z := 40.
